@@ -33,7 +33,7 @@ ASSUMPTIONS = [
     "the C generator's subset is used for the C path: flat structs for the positive scans",
 ]
 SIZES = list(range(57, 73)) + [80, 96, 127, 128, 129, 200]
-PLACEMENTS = ["first", "middle", "last", "nested", "array", "enum"]
+PLACEMENTS = ["first", "middle", "last", "nested", "array", "enum", "one-bit-elements", "underscore-tail"]
 VARKINDS = ["str", "dyn", "opt", "dyn-in-nested", "opt-in-array", "str-in-nested"]
 
 
@@ -97,6 +97,49 @@ def sized_struct(r, name, total, placement):
             # (beyond 64 bits the sibling is sometimes NAMED like an unrolled element of the array)
             fields.append((("arr_1" if total > 64 and len(fields) == 1 and r.random() < 0.4 else "r%d" % len(fields)), 10 + len(fields), ("u", x)))
             rest -= x
+    elif placement == "one-bit-elements":
+        # ONE array of `total` elements of a one-bit type (u1, i1, an enum with one or two enumerators), flat or
+        # as rows: however many elements, each is one bit of the message
+        kind = r.choice(["u1", "i1", "enum1", "enum0", "rows", "single-row"])
+        if kind in ("enum1", "enum0"):
+            decls.append(shapes.mk_enum(name + "Sw", 1 if kind == "enum1" else 0))
+            el = ("enum", name + "Sw")
+        else:
+            el = ("i", 1) if kind == "i1" else ("u", 1)
+        if kind == "rows" and total % 2 == 0:
+            t = ("arr", ("arr", el, total // 2), 2)
+        elif kind == "single-row":
+            t = ("arr", ("arr", el, total), 1)
+        else:
+            t = ("arr", el, total)
+        fields = [("bits", 0, t)]
+    elif placement == "underscore-tail":
+        # names say nothing about size: the trailing fields - and so every bit beyond the 64th - are written the way
+        # padding is by convention (_reserved, _pad, __), as scalars, an array, or inside a trailing nested struct
+        head = min(total - 1, r.choice([8, 32, 56, 63, 64])) if total > 1 else 0
+        tail = total - head
+        fields = []
+        if head:
+            for i, w in enumerate(split_bits(r, head, min(head, r.randint(1, 3)))):
+                fields.append(("h%d" % i, i, scalar_of(r, w)))
+        how = r.choice(["scalars", "array", "nested"])
+        if how == "array" and tail >= 2:
+            n = r.choice([k for k in (2, 3, 4, 8) if k <= tail])
+            w = min(64, tail // n)
+            fields.append(("_pad", 20, ("arr", ("u", w), n)))
+            tail -= n * w
+        elif how == "nested" and tail >= 2:
+            iw = split_bits(r, tail, min(tail, r.randint(1, 2)))
+            if all(w <= 64 for w in iw):
+                decls.append(shapes.mk_struct(name + "Tail", [("x", 0, ("u", iw[0]))] + [("_unused%d" % i, 1 + i, ("u", w)) for i, w in enumerate(iw[1:])]))
+                fields.append((r.choice(["_tail", "tail"]), 20, ("struct", name + "Tail")))
+                tail = 0
+        i = 0
+        while tail > 0:
+            x = min(tail, r.randint(1, 64))
+            fields.append((["_reserved", "_pad1", "__", "_", "_r2", "_r3", "_r4"][i % 7] if i < 7 else "_r%d" % i, 30 + i, ("u", x)))
+            tail -= x
+            i += 1
     elif placement == "enum":
         mx = r.choice([1, 5, 255, 256, 70000])
         ew = max(1, mx.bit_length())
